@@ -473,6 +473,7 @@ const (
 	motifWindow
 	motifPreserve
 	motifManyRevs
+	motifSubdocShapes
 	numMotifs
 )
 
@@ -789,6 +790,22 @@ func genMotif(r *rand.Rand, m int, in *kvInput, exists map[string]bool, hot []st
 		}
 		kv(&KOp{Kind: "GetWithXattrs", Names: []string{"$document", "$document.revid", "_sync"}})
 		in.Ops = append(in.Ops, Step{Kind: "dump", Coll: cn, Key: key, Start: "zero", Clock: next()})
+	case motifSubdocShapes:
+		// sub-document calls against documents whose shape matters: a null property, a scalar where an object is
+		// expected, nested objects, arrays; paths that end in, start with or contain an empty component
+		kv(&KOp{Kind: "Set", Val: sp(pick(r, []string{`{"n":null,"s":"x"}`, `{"a":{"z":[1]},"b":true}`, `{"b":{"c":{"d":5}},"q":"w"}`, `{"a":1,"b":{"c":2}}`, `{"a":{"":7},"":{"a":1}}`}))})
+		for j := 0; j < 3+r.Intn(3); j++ {
+			path := pick(r, []string{"n.x", "n", "s.y", "a.z", "a.z.w", "b.c", "b.c.d", "b.c.d.e", "a.", ".a", "b..c", "q", "new.deep", "a"})
+			switch r.Intn(4) {
+			case 0:
+				kv(&KOp{Kind: "GetSubDocRaw", Path: path})
+			case 1:
+				kv(&KOp{Kind: "SubdocInsert", Path: path, CasMode: pick(r, []string{"zero", "current"}), Val: sp(pick(r, subdocVals[:3]))})
+			default:
+				kv(&KOp{Kind: "WriteSubDoc", Path: path, CasMode: pick(r, []string{"zero", "current", "stale"}), Val: sp(pick(r, subdocVals))})
+			}
+		}
+		kv(&KOp{Kind: "GetRaw"})
 	case motifPurgeIndex:
 		if cn == "s1.c2" {
 			cn = "_default._default"
